@@ -677,6 +677,26 @@ def odd_names(rng, n, blanks=False, nonascii=False):
     return out
 
 
+# field names a careless lookup confuses: spellings that differ only in letter case, names that are the beginning /
+# the end / a middle part of another name, names that differ only in surrounding or inner punctuation
+CONFUSABLE = [["temp", "Temp", "TEMP", "temperature", "tem", "x_temp", "temp_x", "Temperature"],
+              ["rho", "Rho", "rhoh", "RhoH", "rho_E", "rhoe", "rh", "RHO"],
+              ["Y(OH)", "Y(oh)", "Y(O)", "Y(H)", "Y(HO2)", "Y(H2O)", "y(OH)", "Y(OH)2"],
+              ["vel", "velx", "VelX", "x_vel", "vel_x", "velocity", "Vel", "xvel"]]
+
+
+def confusable_names(rng, n):
+    """n distinct names from one family of look-alikes (plain g<k> names beyond the family's size), shuffled - so the
+    spelling that sorts / folds / matches first is not the first field"""
+    fam = list(CONFUSABLE[rng.randrange(len(CONFUSABLE))])
+    rng.shuffle(fam)
+    out = fam[:n]
+    while len(out) < n:
+        out.append(f"g{len(out)}")
+    rng.shuffle(out)
+    return out
+
+
 def poison_covered(m, seed=0, frac=0.6):
     """Overwrite coarse cells lying under the next finer level with NaN / +inf / -inf (what a solver
     that does not average down may leave there). Cells no finer level covers are untouched and at
